@@ -4,7 +4,7 @@ from e1 import E1
 FILES = ['src/thrift/thrift_decode.c', 'src/thrift/parquet_types.c', 'src/encoding/rle.c', 'src/encoding/plain.c', 'src/encoding/delta.c',
          'src/encoding/delta_length.c', 'src/encoding/delta_strings.c', 'src/encoding/dictionary.c', 'src/encoding/byte_stream_split.c',
          'src/core/bitpack.c', 'src/core/buffer.h', 'src/compression/snappy.c', 'src/compression/lz4.c', 'src/compression/gzip.c', 'src/compression/zstd.c']
-BUDGET = {'quick': 900, 'thorough': 3000}
+BUDGET = {'quick': 840, 'thorough': 3000}
 H = 'harness/e2/c08_dec.c'
 ENC = ['src/encoding/rle.c', 'src/core/bitpack.c', 'src/core/buffer.c']
 
